@@ -15,18 +15,19 @@ import (
 // than or equal to `size`, `trail` will be returned
 // completely as is. Defaults to a `trail` of `...`.
 func Truncate(s string, opts hctx.Map) string {
-	if opts["size"] == nil {
-		opts["size"] = 50
+	// defaults apply when an option is missing or is not of the expected type
+	size, ok := opts["size"].(int)
+	if !ok {
+		size = 50
 	}
-	if opts["trail"] == nil {
-		opts["trail"] = "..."
+	trail, ok := opts["trail"].(string)
+	if !ok {
+		trail = "..."
 	}
 	runesS := []rune(s)
-	size := opts["size"].(int)
 	if len(runesS) <= size {
 		return s
 	}
-	trail := opts["trail"].(string)
 	runesTrail := []rune(trail)
 	if len(runesTrail) >= size {
 		return trail
